@@ -2,11 +2,11 @@
 open Svmodel
 open Util
 
-let parse_entries (s : string) : int entry list option =
+let parse_entries (s : string) : nat entry list option =
   if s = "-" then Some [] else if s = "P" || s = "E" then None else
   let parts = List.filter (fun x -> x <> "") (split_on ';' s) in
   let ints x = if x = "" then [] else List.map int_of_string (split_on ',' x) in
-  let mk js = List.map (fun j -> (nat_of_int j, j)) js in
+  let mk js = List.map (fun j -> (nat_of_int j, nat_of_int j)) js in
   Some (List.map (fun p ->
     match p.[0] with
     | 'M' -> (match split_on ':' (String.sub p 1 (String.length p - 1)) with
@@ -17,9 +17,9 @@ let parse_entries (s : string) : int entry list option =
     | 'X' -> EUnexpected (mk (ints (String.sub p 1 (String.length p - 1))))
     | _ -> failwith "entry kind") parts)
 
-let show_entries (d : int entry list) : string =
+let show_entries (d : nat entry list) : string =
   if d = [] then "-" else
-  let js b = String.concat "," (List.map (fun (_, l) -> string_of_int l) b) in
+  let js b = String.concat "," (List.map (fun (_, l) -> string_of_int (int_of_nat l)) b) in
   String.concat "" (List.map (function
     | EMatched (i, b) -> Printf.sprintf "M%d:%s;" (int_of_nat i) (js b)
     | EUnmatched i -> Printf.sprintf "U%d;" (int_of_nat i)
@@ -33,16 +33,16 @@ let run () = iter_lines (fun line ->
     let q = f.(2) and m = f.(3) in
     let es = List.init ne (fun i ->
       let c = q.[i] in
-      { opt = (c = '?' || c = '*'); mul = (c = '*' || c = '+');
-        mt = (fun j -> j >= 0 && j < nl && m.[i * nl + j] = '1') }) in
-    let ls = List.init nl (fun j -> j) in
+      make_exp (c = '?' || c = '*') (c = '*' || c = '+')
+        (fun jn -> let j = int_of_nat jn in j >= 0 && j < nl && m.[i * nl + j] = '1')) in
+    let ls = List.init nl (fun j -> nat_of_int j) in
     let md = match diff es ls with Some d -> d | None -> failwith "model fuel" in
     let macc = accepts es ls in
     let desc = describedb es ls in
     let det = detb es false ls in
     let iacc = (nodiff = "1") in
     let ival = (valid = "1") in
-    let quant = List.exists (fun e -> e.opt || e.mul) es in
+    let quant = List.exists (fun e -> exp_opt e || exp_mul e) es in
     bump (Printf.sprintf "size:%s" (if ne * nl = 0 then "empty" else if ne <= 3 && nl <= 3 then "le3x3" else if ne <= 6 && nl <= 8 then "le6x8" else "big"));
     bump (Printf.sprintf "accepted:%b" macc); bump (Printf.sprintf "deterministic:%b" det);
     bump (Printf.sprintf "described:%b" desc); bump (Printf.sprintf "quantified:%b" quant);
